@@ -3,14 +3,14 @@
    PARTIAL.  What Rocq decides here: for EVERY definition `oko` accepts -- every combinator of the model
    arbitrarily nested: flags, arguments, positionals, `any`, subcommands (adjacent or not), construct!,
    alternatives, optional/many/some/collect/count/last, fallback, guard, parse, map, hide, usage,
-   group_help, pure, fail, boxed, and ADJACENT GROUPS whose members keep their scope (everything but `any`,
-   subcommands and nested groups inside the group) and which start with an item -- every
+   group_help, pure, fail, boxed, and ADJACENT GROUPS whose members keep their scope (everything but subcommands
+   and nested groups inside the group) and which start with an item -- every
    vector and every environment, a run ends in a value, a help/version document or an error message: no
    panic outcome, no fuel exhaustion (C04_total); the retry loop of ParseAdjacent::eval terminates and its
    panic sites (scope arithmetic, `before - remaining`) are unreachable (C04_adjacent_group_total);
    documentation generation and console rendering return (C04_documentation_returns,
    C04_console_rendering_returns).
-   Not theorems: (a) adjacent groups with `any`, subcommands or nested groups as members, or
+   Not theorems: (a) adjacent groups with subcommands or nested groups as members, or
    without a first item (that one panics: known finding) -- their FUEL/panic outcomes are explicit in the
    model and compared with the implementation, (b) the panic sites of message rendering and completion
    (compared per run), (c) purity -- Gallina functions are pure by construction; the implementation is
